@@ -1359,7 +1359,11 @@ func ruleC19_6(c *Ctx, r *Rep) {
 		return ok && fieldName(fa.X.Type(), fa.Field) == "pushers"
 	}
 	nStart, nDel := 0, 0
-	for _, f := range append([]*ssa.Function{fn}, fn.AnonFuncs...) {
+	// (the harvest may live in a helper method of the service: every hand-written function of the package is scanned)
+	for _, f := range c.Funcs {
+		if c.PkgOf(f) != "services" || c.testSupport(f) {
+			continue
+		}
 		for _, b := range f.Blocks {
 			for _, in := range b.Instrs {
 				if mu, ok := in.(*ssa.MapUpdate); ok && isPushers(mu.Map) {
